@@ -411,7 +411,7 @@ char g_cb_keybuf[8]; string_view g_cb_key; xc_attrval g_cb_val;
 
 def _am_key(em, node):
     s = em._strip_all(node)
-    while s.get("kind") in ("CXXFunctionalCastExpr", "CXXBindTemporaryExpr", "MaterializeTemporaryExpr", "ImplicitCastExpr") and s.get("inner"):
+    while s.get("kind") in ("CXXFunctionalCastExpr", "CXXBindTemporaryExpr", "MaterializeTemporaryExpr", "ImplicitCastExpr", "CXXStaticCastExpr") and s.get("inner"):
         s = em._strip_all(s["inner"][0])
     if s.get("kind") in ("CXXConstructExpr", "CXXTemporaryObjectExpr", "CXXMemberCallExpr"):
         # std::string(key) / key.operator std::string()
